@@ -617,6 +617,7 @@ static Json gen_hdr(Rng &r0, const std::string &focus, int tier)
         for (auto &a : g_avoid)
                 av.push(a);
         p.set("avoid", av);
+        maybe_swarm_cpu(r, p, 1, 10);
         (void) tier;
         return p;
 }
